@@ -630,6 +630,11 @@ func genC10Req(t *rapid.T, routes []RouteSpec) FReq {
 			}
 		}
 	}
+	// the same host in another legal spelling (case x port x trailing dot are independent of each other):
+	// seed C10-13 lost the case folding only for names that also carry a port
+	if rapid.IntRange(0, 3).Draw(t, "respell") == 0 {
+		req.Host = c10Respell(t, req.Host)
+	}
 	nperturb := rapid.IntRange(0, 2).Draw(t, "nperturb")
 	for i := 0; i < nperturb; i++ {
 		switch rapid.IntRange(0, 8).Draw(t, "perturb") {
@@ -637,6 +642,9 @@ func genC10Req(t *rapid.T, routes []RouteSpec) FReq {
 			req.Method = rapid.SampledFrom([]string{"POST", "GET", "PUT", "post", "PURGE", "DELETE"}).Draw(t, "pm")
 		case 1:
 			req.Host = rapid.SampledFrom(c10ReqHosts).Draw(t, "ph")
+			if rapid.IntRange(0, 2).Draw(t, "ph_respell") == 0 {
+				req.Host = c10Respell(t, req.Host)
+			}
 		case 2:
 			if len(req.Headers) > 0 {
 				req.Headers = req.Headers[1:]
@@ -969,4 +977,39 @@ func frontReplay[C any](test string, run func(C, bool) *fOutcome) {
 
 func TestProp_C10_Routing(t *testing.T) {
 	frontProp(t, "C10", "TestProp_C10_Routing", genC10Case(), runC10)
+}
+
+// c10Respell writes a request host in another spelling: letter case and a port (and a trailing dot) are
+// drawn independently. IPv6 literals and the empty host are left alone.
+func c10Respell(t *rapid.T, h string) string {
+	if h == "" || strings.HasPrefix(h, "[") {
+		return h
+	}
+	name, tail := h, ""
+	if i := strings.LastIndex(h, ":"); i >= 0 {
+		name, tail = h[:i], h[i:]
+	}
+	switch rapid.IntRange(0, 2).Draw(t, "hcase") {
+	case 1:
+		name = strings.ToUpper(name)
+	case 2:
+		b := []byte(strings.ToLower(name))
+		for i := 0; i < len(b); i += 2 {
+			if b[i] >= 'a' && b[i] <= 'z' {
+				b[i] -= 32
+			}
+		}
+		name = string(b)
+	}
+	switch rapid.IntRange(0, 3).Draw(t, "htail") {
+	case 1:
+		tail = ":8443"
+	case 2:
+		tail = ""
+	case 3:
+		if !strings.HasSuffix(name, ".") {
+			name += "."
+		}
+	}
+	return name + tail
 }
